@@ -64,6 +64,14 @@ type ClosureV struct {
 }
 type Opaque struct{ what string }
 
+// SymStr is a string (or hash) built by formatting possibly symbolic values. Its text is never materialised;
+// two SymStr are equal iff they were built the same way from equal ingredients (formatting and hashing are assumed
+// injective — stated in the evidence).
+type SymStr struct {
+	kind  string
+	parts []Value
+}
+
 // FloatV: float64 represented by an exact signed 64-bit integer term (prototype: only int->float->int, Min, Max, compare)
 type FloatV struct{ t *Term }
 type ErrObj struct {
